@@ -53,9 +53,9 @@ import (
 	"github.com/projectcalico/calico/verifkit/ev"
 )
 
-// c45mSigAddrLost: a node that is a ring member and then reports no address for the manager's
-// IP family (HostMetadataUpdate with an empty address) — see the final report / KNOWN_FINDINGS.
-const c45mSigAddrLost = "c45m-node-losing-family-address-stays-in-ring"
+// Finding c45m-node-losing-family-address-stays-in-ring (fixed in /repo 93258d3): a ring member
+// that then reported no address for the manager's IP family stayed in the ring.  The generator
+// produces that transition ("lose-family-address") and TestVerifC45RegressionAddrLost pins it.
 
 const c45mIface = "eth0"
 
@@ -210,7 +210,7 @@ type c45mNodeAddrs struct{ V4, V6 string }
 type c45mWorld struct {
 	family  uint8
 	names   []string
-	nodes   map[string]c45mNodeAddrs       // nodes currently in the datastore
+	nodes   map[string]c45mNodeAddrs        // nodes currently in the datastore
 	svcs    map[string]*proto.ServiceUpdate // current services by "ns/name"
 	ifaceUp bool
 }
@@ -380,7 +380,6 @@ func TestVerifC45ProxyNeigh(t *testing.T) {
 
 	allNames := []string{"node-0", "node-1", "node-2", "node-3", "node-4", "node-5", "node-6", "node-7"}
 	svcIDs := [][2]string{{"default", "web"}, {"default", "api"}, {"prod", "web"}, {"kube-system", "ingress"}}
-	addrLostKnown := ev.Known(c45mSigAddrLost)
 
 	rapid.Check(t, func(t *rapid.T) {
 		family := uint8(rapid.SampledFrom([]int{4, 6}).Draw(t, "ipFamily"))
@@ -409,7 +408,6 @@ func TestVerifC45ProxyNeigh(t *testing.T) {
 		nontrivial := false
 		everMember := map[string]string{} // node -> family address it last was a member with
 		addrGen := map[string]int{}       // per node address generation
-		excluded := false
 
 		send := func(msg any) {
 			for _, r := range rigs {
@@ -698,13 +696,6 @@ func TestVerifC45ProxyNeigh(t *testing.T) {
 				}
 				remove(rapid.SampledFrom(cands).Draw(t, "leavingNonMember"))
 			case "lose-family-address":
-				if addrLostKnown {
-					excluded = true
-					if !leave() {
-						join()
-					}
-					return
-				}
 				m := w.members()
 				if len(m) == 0 {
 					join()
@@ -875,9 +866,6 @@ func TestVerifC45ProxyNeigh(t *testing.T) {
 			endBatch(label)
 		}
 
-		if excluded {
-			rec.Excluded(c45mSigAddrLost)
-		}
 		if nontrivial {
 			classes["nontrivial"] = true
 		}
@@ -893,19 +881,18 @@ func TestVerifC45ProxyNeigh(t *testing.T) {
 	})
 }
 
-// TestVerifC45KnownAddrLost is the deterministic confirmation for c45mSigAddrLost: node-1 is a
-// member, then reports no IPv4 address any more; a manager that saw this history must answer
-// for the same addresses as one started afterwards.
-func TestVerifC45KnownAddrLost(t *testing.T) {
+// TestVerifC45RegressionAddrLost is the deterministic regression test for the finding fixed in
+// /repo 93258d3: node-1 is a member, then reports no address of the manager's family any more; a
+// manager that saw this history must answer for the same addresses as one started afterwards.
+func TestVerifC45RegressionAddrLost(t *testing.T) {
 	ev.Quiet()
-	if ev.Known(c45mSigAddrLost) {
-		t.Skipf("signature %q is a listed known finding; the driver confirms it separately", c45mSigAddrLost)
-	}
 	for _, family := range []uint8{4, 6} {
 		w := &c45mWorld{family: family, names: []string{"node-0", "node-1"}, nodes: map[string]c45mNodeAddrs{}, svcs: map[string]*proto.ServiceUpdate{}}
 		pool := c45mAddrPool(family)[:8]
 		w.svcs["default/web"] = &proto.ServiceUpdate{Namespace: "default", Name: "web", Type: "LoadBalancer", LoadbalancerIngressIps: pool}
-		for _, local := range w.names {
+		for i, local := range []string{"node-0", "node-1", "node-0", "node-1"} {
+			// with and without an unrelated change that makes the manager recompute anyway
+			nudge := i >= 2
 			r := c45mNewRig(family, local)
 			r.mgr.OnUpdate(w.poolMsg())
 			w.ifaceUp = true
@@ -925,9 +912,10 @@ func TestVerifC45KnownAddrLost(t *testing.T) {
 				w.nodes["node-1"] = c45mNodeAddrs{V4: "172.16.0.2/24"}
 			}
 			r.mgr.OnUpdate(w.nodeMsg("node-1"))
-			// an unrelated service change makes the manager recompute
-			r.mgr.OnUpdate(&proto.ServiceUpdate{Namespace: "default", Name: "other", Type: "ClusterIP"})
-			r.mgr.OnUpdate(w.svcs["default/web"])
+			if nudge {
+				r.mgr.OnUpdate(&proto.ServiceUpdate{Namespace: "default", Name: "other", Type: "ClusterIP"})
+				r.mgr.OnUpdate(w.svcs["default/web"])
+			}
 			if err := r.mgr.CompleteDeferredWork(); err != nil {
 				t.Fatalf("HARNESS-GAP: %v", err)
 			}
@@ -936,8 +924,8 @@ func TestVerifC45KnownAddrLost(t *testing.T) {
 			r.mgr.Stop()
 			f.mgr.Stop()
 			if strings.Join(got, ",") != strings.Join(want, ",") {
-				t.Fatalf("IPv%d manager on %s: node-1 was a member and then reported no IPv%d address; this manager answers for %v, a manager started afterwards answers for %v (members now: %v)",
-					family, local, family, got, want, w.members())
+				t.Fatalf("IPv%d manager on %s (unrelated service change in the same batch: %v): node-1 was a member and then reported no IPv%d address; this manager answers for %v, a manager started afterwards answers for %v (members now: %v)",
+					family, local, nudge, family, got, want, w.members())
 			}
 		}
 	}
